@@ -50,6 +50,20 @@ import (
 //	                          pkg/tracing/tracer.go tracer.run: every send to a subscriber (the value variable of a range over
 //	                          the subscribers) is a plain send statement standing directly in the body of that range: not a
 //	                          clause of a select (which could give up), not in a goroutine or a nested block
+//	src_subprocess_shares_the_locator
+//	                          subprocess.go newSubProcess: every variable with "locator" in its name that is defined there is
+//	                          defined as the field named locator of something else (the parent wiring's), there is at least
+//	                          one, and nothing there makes a locator (no call of a function whose name contains
+//	                          NewFlowDataLocator or Clone)
+//	src_subprocess_forwards_directly
+//	                          subprocess.go subProcess.ConsumeEvent: no send statement, no select and no go statement, and a
+//	                          call of something named ForwardEvent (the event goes on to the consumers inside on the
+//	                          goroutine of whoever delivers it; nothing is queued for the sub-process's own run loop)
+//	src_token_continues_on_the_first_flow_that_flows
+//	                          flow.go flow.Start: the loop over the outgoing sequence flows of a node (a range whose body calls
+//	                          handleSequenceFlow) starts with an if statement whose condition is the negation of a plain
+//	                          variable that is set to true inside that if (the arriving token takes the first flow that
+//	                          flows), not a comparison of the loop index
 //	src_answer_slice_is_fresh gateway_exclusive.go exclusiveGateway.run: every slice that is appended to there is a variable
 //	                          declared inside the case clause in which it is appended to (made anew for every message)
 //	src_wake_is_direct        process_set.go: struct ProcessSet has no map-typed field of channels (no table of listening catch
@@ -77,6 +91,9 @@ type protoFacts struct {
 	AnswerSliceIsFresh  bool
 	WakeIsDirect        bool
 	PushWaits           bool
+	SubSharesLocator    bool
+	SubForwardsDirectly bool
+	FirstThatFlows      bool
 }
 
 func findMethod(f *ast.File, recv, name string) *ast.FuncDecl {
@@ -144,18 +161,99 @@ func protocolFacts(c *factsCtx) (pf protoFacts) {
 				continue
 			}
 			found = true
+			defs, bad := 0, 0
 			ast.Inspect(fd.Body, func(n ast.Node) bool {
 				if call, ok := n.(*ast.CallExpr); ok {
 					if se, ok := call.Fun.(*ast.SelectorExpr); ok && se.Sel.Name == "RegisterEventConsumer" {
 						pf.SubProcessRegisters = true
 					}
+					if fn := nodeText(c.fset, call.Fun); strings.Contains(fn, "NewFlowDataLocator") || strings.Contains(fn, "Clone") {
+						bad++
+					}
+				}
+				if as, ok := n.(*ast.AssignStmt); ok && len(as.Lhs) == len(as.Rhs) {
+					for i, l := range as.Lhs {
+						if id, ok := l.(*ast.Ident); ok && strings.Contains(strings.ToLower(id.Name), "locator") {
+							if se, ok := as.Rhs[i].(*ast.SelectorExpr); ok && se.Sel.Name == "locator" {
+								defs++
+							} else {
+								bad++
+							}
+						}
+					}
 				}
 				return true
 			})
+			pf.SubSharesLocator = defs > 0 && bad == 0
 		}
 		if !found {
 			c.fail("protocol facts: newSubProcess not found in subprocess.go")
 		}
+	}
+	// --- subprocess.go: what a sub-process does with an event
+	if ce := findMethod(c.parse("subprocess.go"), "subProcess", "ConsumeEvent"); ce == nil || ce.Body == nil {
+		c.fail("protocol facts: subProcess.ConsumeEvent not found in subprocess.go")
+	} else {
+		queues, forwards := false, false
+		ast.Inspect(ce.Body, func(n ast.Node) bool {
+			switch x := n.(type) {
+			case *ast.SendStmt, *ast.SelectStmt, *ast.GoStmt:
+				queues = true
+			case *ast.CallExpr:
+				if strings.Contains(nodeText(c.fset, x.Fun), "ForwardEvent") {
+					forwards = true
+				}
+			}
+			return true
+		})
+		pf.SubForwardsDirectly = forwards && !queues
+	}
+	// --- flow.go: which flow the arriving token takes
+	if st := findMethod(c.parse("flow.go"), "flow", "Start"); st == nil || st.Body == nil {
+		c.fail("protocol facts: flow.Start not found in flow.go")
+	} else {
+		loops, good := 0, 0
+		ast.Inspect(st.Body, func(n ast.Node) bool {
+			rg, ok := n.(*ast.RangeStmt)
+			if !ok || !strings.Contains(nodeText(c.fset, rg.Body), "handleSequenceFlow(") {
+				return true
+			}
+			loops++
+			if len(rg.Body.List) == 0 {
+				return true
+			}
+			ifs, ok := rg.Body.List[0].(*ast.IfStmt)
+			if !ok {
+				return true
+			}
+			un, ok := ifs.Cond.(*ast.UnaryExpr)
+			if !ok || un.Op != token.NOT {
+				return true
+			}
+			flag, ok := un.X.(*ast.Ident)
+			if !ok {
+				return true
+			}
+			set := false
+			ast.Inspect(ifs.Body, func(m ast.Node) bool {
+				if as, ok := m.(*ast.AssignStmt); ok && len(as.Lhs) == 1 && len(as.Rhs) == 1 {
+					if l, ok := as.Lhs[0].(*ast.Ident); ok && l.Name == flag.Name {
+						if r, ok := as.Rhs[0].(*ast.Ident); ok && r.Name == "true" {
+							set = true
+						}
+					}
+				}
+				return true
+			})
+			if set {
+				good++
+			}
+			return true
+		})
+		if loops == 0 {
+			c.fail("protocol facts: flow.Start has no loop over the outgoing flows that calls handleSequenceFlow")
+		}
+		pf.FirstThatFlows = loops > 0 && good == loops
 	}
 	// --- gateway_event_based.go
 	if run := findMethod(c.parse("gateway_event_based.go"), "eventBasedGateway", "run"); run == nil {
@@ -756,8 +854,8 @@ func protocolFacts(c *factsCtx) (pf protoFacts) {
 func init() {
 	factGens = append(factGens, func(c *factsCtx) {
 		pf := protocolFacts(c)
-		fmt.Fprintf(&c.out, "(* protocol facts read off the sources (harness/protocol.go) *)\nDefinition src_active_before_arm : bool := %v.\nDefinition src_termchan_capacity : nat := %d.\nDefinition src_termchan_table_kept : bool := %v.\nDefinition src_determination_is_cas : bool := %v.\nDefinition src_subprocess_registers : bool := %v.\nDefinition src_determination_flag_per_activation : bool := %v.\nDefinition src_join_counter_bits : N := %d%%N.\nDefinition src_join_counter_resets : bool := %v.\nDefinition src_setvariable_replaces : bool := %v.\nDefinition src_token_counter_never_set_back : bool := %v.\nDefinition src_monitor_accumulator_is_local : bool := %v.\nDefinition src_probing_key_is_the_id : bool := %v.\nDefinition src_flows_in_reference_order : bool := %v.\nDefinition src_handler_read_only_on_error : bool := %v.\nDefinition src_unsubscribe_drains : bool := %v.\nDefinition src_answer_slice_is_fresh : bool := %v.\nDefinition src_wake_is_direct : bool := %v.\nDefinition src_push_waits_for_the_subscriber : bool := %v.\n\n",
-			pf.ActiveBeforeArm, pf.TermChanCapacity, pf.TermChanTableKept, pf.DeterminationIsCAS, pf.SubProcessRegisters, pf.FlagPerActivation, pf.JoinCounterBits, pf.JoinCounterResets, pf.SetVariableReplaces, pf.CounterNeverSetBack, pf.AccumulatorIsLocal, pf.ProbingKeyIsTheId, pf.FlowsInRefOrder, pf.HandlerOnlyOnError, pf.UnsubscribeDrains, pf.AnswerSliceIsFresh, pf.WakeIsDirect, pf.PushWaits)
+		fmt.Fprintf(&c.out, "(* protocol facts read off the sources (harness/protocol.go) *)\nDefinition src_active_before_arm : bool := %v.\nDefinition src_termchan_capacity : nat := %d.\nDefinition src_termchan_table_kept : bool := %v.\nDefinition src_determination_is_cas : bool := %v.\nDefinition src_subprocess_registers : bool := %v.\nDefinition src_determination_flag_per_activation : bool := %v.\nDefinition src_join_counter_bits : N := %d%%N.\nDefinition src_join_counter_resets : bool := %v.\nDefinition src_setvariable_replaces : bool := %v.\nDefinition src_token_counter_never_set_back : bool := %v.\nDefinition src_monitor_accumulator_is_local : bool := %v.\nDefinition src_probing_key_is_the_id : bool := %v.\nDefinition src_flows_in_reference_order : bool := %v.\nDefinition src_handler_read_only_on_error : bool := %v.\nDefinition src_unsubscribe_drains : bool := %v.\nDefinition src_answer_slice_is_fresh : bool := %v.\nDefinition src_wake_is_direct : bool := %v.\nDefinition src_push_waits_for_the_subscriber : bool := %v.\nDefinition src_subprocess_shares_the_locator : bool := %v.\nDefinition src_subprocess_forwards_directly : bool := %v.\nDefinition src_token_continues_on_the_first_flow_that_flows : bool := %v.\n\n",
+			pf.ActiveBeforeArm, pf.TermChanCapacity, pf.TermChanTableKept, pf.DeterminationIsCAS, pf.SubProcessRegisters, pf.FlagPerActivation, pf.JoinCounterBits, pf.JoinCounterResets, pf.SetVariableReplaces, pf.CounterNeverSetBack, pf.AccumulatorIsLocal, pf.ProbingKeyIsTheId, pf.FlowsInRefOrder, pf.HandlerOnlyOnError, pf.UnsubscribeDrains, pf.AnswerSliceIsFresh, pf.WakeIsDirect, pf.PushWaits, pf.SubSharesLocator, pf.SubForwardsDirectly, pf.FirstThatFlows)
 	})
 	commands["protocol"] = func(env *Env) {
 		c := &factsCtx{repo: env.Repo, fset: token.NewFileSet()}
